@@ -395,7 +395,7 @@ func autopilotConfig(v int) structs.AutopilotConfig {
 
 func fgPolicy(v int) *structs.FeatureGatePolicy {
 	return &structs.FeatureGatePolicy{Settings: map[string]structs.FeatureGateSetting{
-		"c10-feature": {Enabled: v%2 == 0, Source: "operator"},
+		"c10-feature":             {Enabled: v%2 == 0, Source: "operator"},
 		fmt.Sprintf("c10-f%d", v): {Enabled: true, Source: "operator"},
 	}}
 }
